@@ -623,10 +623,8 @@ class TrXfer:
             raise Unsupported(f"transfer: assignment {u(st)[:120]}")
         if isinstance(st, ast.Expr) and isinstance(st.value, ast.Call):
             t = u(st.value)
-            if t == DEL_DL:
-                return f"{pad}let s := {{ s with downloads := none }}\n" + self.go(rest, env, ind, ret_k)
-            if t == DEL_DB:
-                return f"{pad}let s := {{ s with file := none }}\n" + self.go(rest, env, ind, ret_k)
+            if t in self.UPDATES:
+                return f"{pad}let s := {self.UPDATES[t]}\n" + self.go(rest, env, ind, ret_k)
             if t == COPY:
                 return (f"{pad}let s := match s.downloads with | some d => {{ s with file := some d, folder := true }} | none => s\n"
                         + self.go(rest, env, ind, ret_k))
@@ -638,7 +636,9 @@ class TrXfer:
     def skip(st: ast.stmt) -> bool:
         return isinstance(st, ast.Assign) and len(st.targets) == 1 and u(st.targets[0]) in XFER_SKIP_ASSIGN
 
-    UPDATES = {DEL_DL: "{ s with downloads := none }", DEL_DB: "{ s with file := none }"}
+    # `delete_file` moves the live file to the folder's deleted files (what a `restore file` request brings back)
+    UPDATES = {DEL_DL: "{ s with downloads := none, dlDeleted := s.dlDeleted ++ s.downloads.toList }",
+               DEL_DB: "{ s with file := none, fileDeleted := s.fileDeleted ++ s.file.toList }"}
 
     def updates(self, stmts) -> "str | None":
         """a block made only of bookkeeping and plain state updates -> the lean term of the new `s`; otherwise None"""
